@@ -65,7 +65,7 @@ def ssPhase1 (R t : Nat) (sf : Rec) (w : World) : Rec × World :=
   let ns := readStamp w t
   if sf.isGenerated && ns != .missing && (sf.isOverride || detectOverride (sf.stamp.getD .missing) ns) then
     let w := ev w (.warnOverride t)
-    let sf := if !sf.isOverride then setOverride w t sf R else sf
+    let sf := setOverride w t sf R
     (sf, setRec w t sf)
   else (sf, w)
 
@@ -104,9 +104,7 @@ theorem ssPhase1_sh (R t : Nat) (sf : Rec) (w : World) :
   simp only [readStamp_sh, shRec_isGenerated, shRec_isOverride, shRec_stamp, ev_sh, setOverride_sh]
   split
   · dsimp only
-    split
-    · rw [setRec_sh]
-    · rw [setRec_sh]
+    rw [setRec_sh]
   · rfl
 
 theorem ssRun_sh {R : Nat} (hR : 0 < R) {EA EB : Engine} (hE : EngSh R EA EB) (d : Defects) (cx : Ctx)
